@@ -1,5 +1,6 @@
 import DspVerif.Props.C20
 import DspVerif.Gen.StepsDyn
+import DspVerif.Gen.CtorDyn
 /-!
 # C20 — bridge: the hand-written sample-loop models ARE the regenerated loop bodies
 
@@ -451,6 +452,231 @@ theorem agc_gen_gain_le_max_cmplx (q : Gen.AgcStepParams ℝ) (t : AgcState ℝ)
             x[i].im * (run (Gen.agcStepC eps q) (AgcState.toGen t) x).2.1[i]⟩ := by
   simp only [agc_runC_eq]
   exact C20.Agc.gain_le_max_cmplx (Agc.ofGen q) t x
+
+/-! ## Constructors (regenerated: `Gen/CtorDyn.lean`)
+
+`Gen/CtorDyn.lean` holds the constructors of `Compressor`, `Limiter`, `NoiseGate`, `MAFilter<real_t>` and `Agc` as the C++ AST has
+them now: every data member in declaration order (mem-initialiser, else default member initialiser), then the body (assignments,
+`DSPLIB_ASSERT`s as `.error`).  The smoothing coefficients are the conditional the code spells out,
+`(t > 0) ? std::exp(-std::log(9) / (sample_rate * t)) : 0`; the conversion `int(std::floor(…))` of `NoiseGate` is a parameter
+`truncToInt`.  The theorems below identify the generated constructors with the `init` functions of `Model/Dynamics.lean` (acceptance and
+constructed object; message texts are not compared; sample rate `fs ≥ 1`, because `sample_rate * t` is a divisor) and start the
+transported headline theorems from the GENERATED constructor. -/
+
+theorem toOption_eq_some {ε β : Type} (e : Except ε β) (b : β) : e.toOption = some b ↔ e = .ok b := by
+  cases e <;> simp [Except.toOption]
+
+theorem ok_of_toOption_map {ε ε' β γ : Type} {e : Except ε β} {e' : Except ε' γ} {f : γ → β} {b : β}
+    (h : e.toOption = e'.toOption.map f) (hb : e = .ok b) : ∃ c, e' = .ok c ∧ b = f c := by
+  subst hb
+  cases e' with
+  | error _ => simp [Except.toOption] at h
+  | ok c => exact ⟨c, rfl, by simpa [Except.toOption] using h⟩
+
+/-- for a positive sample rate and an admitted time `t ≥ 0` the model's `coef` is the conditional the constructors now spell out:
+`(t > 0) ? std::exp(-std::log(9) / (sample_rate * t)) : 0` -/
+theorem coef_ite {fs : ℕ} (hfs : 0 < fs) {t : ℝ} (ht : 0 ≤ t) :
+    coef (fs : ℝ) t = if 0 < t then Real.exp (-(Real.log 9) / ((fs : ℝ) * t)) else 0 := by
+  have hfs' : (0 : ℝ) < (fs : ℝ) := by exact_mod_cast hfs
+  rw [C20.coef_real]
+  by_cases h : 0 < t
+  · rw [if_pos h, if_neg (mul_pos hfs' h).ne']
+  · have : t = 0 := le_antisymm (not_lt.mp h) ht
+    subst this; simp
+
+/-! ### Compressor -/
+
+/-- the object the model's constructor describes: the five parameters and `gs_{0}` -/
+def Comp.toObj (p : Comp ℝ) : Gen.CompressorObj ℝ :=
+  { T := p.gp.T, R := p.gp.R, W := p.gp.W, wA := p.wA, wR := p.wR, gs := 0 }
+
+/-- members of a constructed `Compressor` that the generated loop body reads / writes -/
+def compObjP (o : Gen.CompressorObj ℝ) : Gen.CompressorStepParams ℝ := { T := o.T, R := o.R, W := o.W, wA := o.wA, wR := o.wR }
+def compObjS (o : Gen.CompressorObj ℝ) : Gen.CompressorStepState ℝ := { gs := o.gs }
+
+set_option linter.unusedSimpArgs false in
+/-- **bridge, `Compressor::Compressor`:** for every sample rate `fs ≥ 1` and ALL other arguments, the generated constructor accepts
+exactly when `Comp.init` does, and then leaves the object `Comp.init` describes (with `gs_ = 0`).  (Messages are not compared.) -/
+theorem compressorCtor_eq (fs : ℕ) (hfs : 0 < fs) (T : ℝ) (R : Int) (W ta tr : ℝ) :
+    (Gen.compressorCtor (fs : Int) T R W ta tr).toOption = (Comp.init fs T R W ta tr).toOption.map Comp.toObj := by
+  unfold Gen.compressorCtor Comp.init
+  by_cases h1 : (-50 ≤ T ∧ T ≤ 0) <;> by_cases h2 : (1 ≤ R ∧ R ≤ 50) <;> by_cases h3 : (0 ≤ W ∧ W ≤ 20) <;>
+    by_cases h4 : (0 ≤ ta ∧ ta ≤ 4) <;> by_cases h5 : (0 ≤ tr ∧ tr ≤ 4) <;>
+    simp [h1, h2, h3, h4, h5, Except.toOption, Comp.toObj, coef_ite hfs, and_comm (a := T ≤ 0) (b := -50 ≤ T),
+      and_comm (a := R ≤ 50) (b := 1 ≤ R), and_comm (a := W ≤ 20) (b := 0 ≤ W), and_comm (a := ta ≤ 4) (b := 0 ≤ ta),
+      and_comm (a := tr ≤ 4) (b := 0 ≤ tr)]
+
+/-- **T20.1 from the GENERATED constructor through the GENERATED loop body, Compressor:** whatever the regenerated constructor
+accepts (sample rate `fs ≥ 1`), running the regenerated loop body of `process` from the object it leaves emits only gains in `(0, 1]`,
+`out[i] = x[i]·gain[i]`, `|out[i]| ≤ |x[i]|`, for every signal. -/
+theorem compressor_gen_from_ctor (fs : ℕ) (hfs : 0 < fs) (T : ℝ) (R : Int) (W ta tr : ℝ) (o : Gen.CompressorObj ℝ)
+    (h : Gen.compressorCtor (fs : Int) T R W ta tr = .ok o) (x : Array ℝ) :
+    (run (Gen.compressorStep eps (compObjP o)) (compObjS o) x).1.gs ≤ 0 ∧
+      GainsIn (fun g => 0 < g ∧ g ≤ 1) x (run (Gen.compressorStep eps (compObjP o)) (compObjS o) x).2 := by
+  obtain ⟨p, hp, rfl⟩ := ok_of_toOption_map (compressorCtor_eq fs hfs T R W ta tr) h
+  exact compressor_gen_gain_range (compObjP (Comp.toObj p)) (C20.Comp.init_ok hfs hp).1 _ (le_refl (0 : ℝ)) x
+
+/-- the coefficients the generated constructor stores: `coef fs t`, in particular `0` for a time of `0` -/
+theorem compressorCtor_coefs (fs : ℕ) (hfs : 0 < fs) (T : ℝ) (R : Int) (W ta tr : ℝ) (o : Gen.CompressorObj ℝ)
+    (h : Gen.compressorCtor (fs : Int) T R W ta tr = .ok o) :
+    o.T = T ∧ o.R = R ∧ o.W = W ∧ o.wA = coef (fs : ℝ) ta ∧ o.wR = coef (fs : ℝ) tr ∧ o.gs = 0 := by
+  obtain ⟨p, hp, rfl⟩ := ok_of_toOption_map (compressorCtor_eq fs hfs T R W ta tr) h
+  unfold Comp.init at hp
+  split_ifs at hp
+  cases hp
+  exact ⟨rfl, rfl, rfl, rfl, rfl, rfl⟩
+
+/-! ### Limiter -/
+
+def Lim.toObj (p : Lim ℝ) : Gen.LimiterObj ℝ := { T := p.gp.T, W := p.gp.W, wA := p.wA, wR := p.wR, gs := 0 }
+def limObjP (o : Gen.LimiterObj ℝ) : Gen.LimiterStepParams ℝ := { T := o.T, W := o.W, wA := o.wA, wR := o.wR }
+def limObjS (o : Gen.LimiterObj ℝ) : Gen.LimiterStepState ℝ := { gs := o.gs }
+
+set_option linter.unusedSimpArgs false in
+/-- **bridge, `Limiter::Limiter`** -/
+theorem limiterCtor_eq (fs : ℕ) (hfs : 0 < fs) (T W ta tr : ℝ) :
+    (Gen.limiterCtor (fs : Int) T W ta tr).toOption = (Lim.init fs T W ta tr).toOption.map Lim.toObj := by
+  unfold Gen.limiterCtor Lim.init
+  by_cases h1 : (-50 ≤ T ∧ T ≤ 0) <;> by_cases h3 : (0 ≤ W ∧ W ≤ 20) <;>
+    by_cases h4 : (0 ≤ ta ∧ ta ≤ 4) <;> by_cases h5 : (0 ≤ tr ∧ tr ≤ 4) <;>
+    simp [h1, h3, h4, h5, Except.toOption, Lim.toObj, coef_ite hfs, and_comm (a := T ≤ 0) (b := -50 ≤ T),
+      and_comm (a := W ≤ 20) (b := 0 ≤ W), and_comm (a := ta ≤ 4) (b := 0 ≤ ta), and_comm (a := tr ≤ 4) (b := 0 ≤ tr)]
+
+theorem limiter_gen_from_ctor (fs : ℕ) (hfs : 0 < fs) (T W ta tr : ℝ) (o : Gen.LimiterObj ℝ)
+    (h : Gen.limiterCtor (fs : Int) T W ta tr = .ok o) (x : Array ℝ) :
+    (run (Gen.limiterStep eps (limObjP o)) (limObjS o) x).1.gs ≤ 0 ∧
+      GainsIn (fun g => 0 < g ∧ g ≤ 1) x (run (Gen.limiterStep eps (limObjP o)) (limObjS o) x).2 := by
+  obtain ⟨p, hp, rfl⟩ := ok_of_toOption_map (limiterCtor_eq fs hfs T W ta tr) h
+  exact limiter_gen_gain_range (limObjP (Lim.toObj p)) (C20.Lim.init_ok hfs hp).1 _ (le_refl (0 : ℝ)) x
+
+/-- **T20.3 (ceiling) from the GENERATED constructor, attack time 0:** a limiter constructed by the regenerated constructor with
+`attack_time = 0` (the coefficient is then the `0` of the constructor's conditional) and run by the regenerated loop body never lets a sample
+above its threshold, `|out[i]| ≤ 10^(T/20)`, for arbitrary signals, release time and knee. -/
+theorem limiter_gen_ceiling_from_ctor (fs : ℕ) (hfs : 0 < fs) (T W tr : ℝ) (o : Gen.LimiterObj ℝ)
+    (h : Gen.limiterCtor (fs : Int) T W 0 tr = .ok o) (x : Array ℝ) (i : Nat)
+    (hi : i < (run (Gen.limiterStep eps (limObjP o)) (limObjS o) x).2.2.size) :
+    (run (Gen.limiterStep eps (limObjP o)) (limObjS o) x).2.2.size = x.size ∧
+      |(run (Gen.limiterStep eps (limObjP o)) (limObjS o) x).2.2[i]| ≤ Gen.db2mag T := by
+  obtain ⟨p, hp, rfl⟩ := ok_of_toOption_map (limiterCtor_eq fs hfs T W 0 tr) h
+  have hT : p.gp.T = T := (C20.Lim.init_ok hfs hp).2.1
+  have := limiter_gen_ceiling (limObjP (Lim.toObj p)) (C20.Lim.init_ok hfs hp).1 (C20.Lim.init_zero_attack hp) _ x i hi
+  simpa [limObjP, Lim.toObj, hT] using this
+
+/-! ### NoiseGate -/
+
+/-- the object the model's constructor describes (`tH_` is the `int` the model's scalar hold time was converted from) -/
+def Gate.toObj (p : Gate ℝ) : Gen.NoiseGateObj ℝ :=
+  { tlin := p.tlin, wA := p.wA, wR := p.wR, tH := ⌊p.tH⌋, cA := 0, lg := 0 }
+def gateObjP (o : Gen.NoiseGateObj ℝ) : Gen.NoiseGateStepParams ℝ := { tlin := o.tlin, wA := o.wA, wR := o.wR, tH := o.tH }
+def gateObjS (o : Gen.NoiseGateObj ℝ) : Gen.NoiseGateStepState ℝ := { cA := o.cA, lg := o.lg }
+
+set_option linter.unusedSimpArgs false in
+/-- **bridge, `NoiseGate::NoiseGate`**, for every conversion `real_t → int` that is the identity on integral values (truncation is) -/
+theorem noiseGateCtor_eq (trunc : ℝ → Int) (htrunc : ∀ z : Int, trunc (z : ℝ) = z) (fs : ℕ) (hfs : 0 < fs) (T ta tr th : ℝ) :
+    (Gen.noiseGateCtor trunc (fs : Int) T ta tr th).toOption = (Gate.init fs T ta tr th).toOption.map Gate.toObj := by
+  unfold Gen.noiseGateCtor Gate.init
+  by_cases h1 : (-140 ≤ T ∧ T ≤ 0) <;> by_cases h2 : (0 ≤ ta ∧ ta ≤ 4) <;>
+    by_cases h3 : (0 ≤ tr ∧ tr ≤ 4) <;> by_cases h4 : (0 ≤ th ∧ th ≤ 4) <;>
+    simp [h1, h2, h3, h4, htrunc, Except.toOption, Gate.toObj, fn_floor, coef_ite hfs, and_comm (a := T ≤ 0) (b := -140 ≤ T),
+      and_comm (a := ta ≤ 4) (b := 0 ≤ ta), and_comm (a := tr ≤ 4) (b := 0 ≤ tr), and_comm (a := th ≤ 4) (b := 0 ≤ th)]
+
+theorem noiseGate_gen_from_ctor (trunc : ℝ → Int) (htrunc : ∀ z : Int, trunc (z : ℝ) = z) (fs : ℕ) (hfs : 0 < fs) (T ta tr th : ℝ)
+    (o : Gen.NoiseGateObj ℝ) (h : Gen.noiseGateCtor trunc (fs : Int) T ta tr th = .ok o) (x : Array ℝ) :
+    (0 ≤ (run (Gen.noiseGateStep (gateObjP o)) (gateObjS o) x).1.lg ∧
+      (run (Gen.noiseGateStep (gateObjP o)) (gateObjS o) x).1.lg ≤ 1) ∧
+      GainsIn (fun g => 0 ≤ g ∧ g ≤ 1) x (run (Gen.noiseGateStep (gateObjP o)) (gateObjS o) x).2 := by
+  obtain ⟨p, hp, rfl⟩ := ok_of_toOption_map (noiseGateCtor_eq trunc htrunc fs hfs T ta tr th) h
+  have hq : NoiseGateAdmissible (gateObjP (Gate.toObj p)) := by
+    have := C20.Gate.init_ok hfs hp
+    exact ⟨this.wA0, this.wA1, this.wR0, this.wR1⟩
+  exact noiseGate_gen_gain_range (gateObjP (Gate.toObj p)) hq ⟨0, 0⟩ ⟨le_refl _, zero_le_one⟩ x
+
+/-! ### MAFilter, Agc -/
+
+/-- **bridge, `MAFilter<real_t>::MAFilter(int n)`** for `n ≥ 0` -/
+theorem maFilterCtor_eq (n : ℕ) : (Gen.maFilterCtor (n : Int) : Gen.MAFilterState ℝ) = MA.toGen (MA.init n) := by
+  simp [Gen.maFilterCtor, MA.toGen, MA.init, Gen.arrNew, Gen.zeroR]
+
+/-- the object `Agc::Agc` leaves, from the model's parameter record and state -/
+def Agc.toObj (ps : Agc ℝ × AgcState ℝ) : Gen.AgcObj ℝ :=
+  { trise := ps.1.trise, tfall := ps.1.tfall, max_gain := ps.1.maxGain, target := ps.1.target, gain := ps.2.gain,
+    maflt := MA.toGen ps.2.ma }
+def agcObjP (o : Gen.AgcObj ℝ) : Gen.AgcStepParams ℝ := { trise := o.trise, tfall := o.tfall, max_gain := o.max_gain, target := o.target }
+def agcObjS (o : Gen.AgcObj ℝ) : Gen.AgcStepState ℝ := { gain := o.gain, maflt := o.maflt }
+
+/-- **bridge, `Agc::Agc`** (the object is `*_d`: default member initialisers of `AgcImpl`, then the assignments of the body),
+for ALL arguments -/
+theorem agcCtor_eq (tl mg : ℝ) (n : Int) (tri tfa : ℝ) :
+    (Gen.agcCtor tl mg n tri tfa).toOption = (Agc.init tl mg n tri tfa).toOption.map Agc.toObj := by
+  unfold Gen.agcCtor Agc.init
+  by_cases hn : n > 0
+  · obtain ⟨k, rfl⟩ := Int.eq_ofNat_of_zero_le (le_of_lt hn)
+    have hk : k ≠ 0 := by rintro rfl; simp at hn
+    simp [hk, Except.toOption, Agc.toObj, maFilterCtor_eq]
+  · simp [hn, Except.toOption]
+
+theorem agcObj_toObj (ps : Agc ℝ × AgcState ℝ) :
+    agcObjP (Agc.toObj ps) = Agc.toGen ps.1 ∧ agcObjS (Agc.toObj ps) = AgcState.toGen ps.2 := ⟨rfl, rfl⟩
+
+/-- **T20.5 from the GENERATED constructor through the GENERATED loop body (real signals):** whatever `Agc::Agc` accepts, the gains
+emitted by the regenerated loop are in `(0, 10^(max_gain/20)]` — `exp` of the stored log-domain limit `log(10^(max_gain/20))`. -/
+theorem agc_gen_from_ctor_real (tl mg : ℝ) (n : Int) (tri tfa : ℝ) (o : Gen.AgcObj ℝ) (h : Gen.agcCtor tl mg n tri tfa = .ok o)
+    (x : Array ℝ) :
+    o.max_gain = Real.log ((10 : ℝ) ^ (mg / 20)) ∧
+    ∃ (_ : (run (Gen.agcStepR eps (agcObjP o)) (agcObjS o) x).2.1.size = x.size)
+      (_ : (run (Gen.agcStepR eps (agcObjP o)) (agcObjS o) x).2.2.size = x.size),
+      ∀ i (hi : i < x.size),
+        0 < (run (Gen.agcStepR eps (agcObjP o)) (agcObjS o) x).2.1[i] ∧
+        (run (Gen.agcStepR eps (agcObjP o)) (agcObjS o) x).2.1[i] ≤ (10 : ℝ) ^ (mg / 20) ∧
+        (run (Gen.agcStepR eps (agcObjP o)) (agcObjS o) x).2.2[i] =
+          x[i] * (run (Gen.agcStepR eps (agcObjP o)) (agcObjS o) x).2.1[i] := by
+  obtain ⟨ps, hp, rfl⟩ := ok_of_toOption_map (agcCtor_eq tl mg n tri tfa) h
+  have hmg : ps.1.maxGain = Real.log ((10 : ℝ) ^ (mg / 20)) := by
+    unfold Agc.init at hp
+    split_ifs at hp
+    cases hp
+    simp
+  refine ⟨hmg, ?_⟩
+  obtain ⟨h1, h2, h3⟩ := agc_gen_gain_le_max_real (Agc.toGen ps.1) ps.2 x
+  refine ⟨h1, h2, fun i hi => ?_⟩
+  obtain ⟨a, b, c⟩ := h3 i hi
+  refine ⟨a, ?_, c⟩
+  have hpos : (0 : ℝ) < (10 : ℝ) ^ (mg / 20) := Real.rpow_pos_of_pos (by norm_num) _
+  have : Real.exp (Agc.toGen ps.1).max_gain = (10 : ℝ) ^ (mg / 20) := by
+    show Real.exp ps.1.maxGain = _
+    rw [hmg, Real.exp_log hpos]
+  rw [← this]; exact b
+
+/-- the default arguments of the four constructors as the headers have them now -/
+theorem ctor_defaults :
+    (Gen.compressorCtorDefault_sample_rate, (Gen.compressorCtorDefault_threshold : ℝ), Gen.compressorCtorDefault_ratio,
+      (Gen.compressorCtorDefault_knee_width : ℝ), (Gen.compressorCtorDefault_attack_time : ℝ),
+      (Gen.compressorCtorDefault_release_time : ℝ)) = (44100, -10, 5, 0, 1 / 100, 1 / 5) ∧
+    (Gen.limiterCtorDefault_sample_rate, (Gen.limiterCtorDefault_threshold : ℝ), (Gen.limiterCtorDefault_knee_width : ℝ),
+      (Gen.limiterCtorDefault_attack_time : ℝ), (Gen.limiterCtorDefault_release_time : ℝ)) = (44100, -10, 0, 0, 1 / 5) ∧
+    (Gen.noiseGateCtorDefault_sample_rate, (Gen.noiseGateCtorDefault_threshold : ℝ), (Gen.noiseGateCtorDefault_attack_time : ℝ),
+      (Gen.noiseGateCtorDefault_release_time : ℝ), (Gen.noiseGateCtorDefault_hold_time : ℝ)) = (44100, -10, 1 / 20, 1 / 50, 1 / 20) ∧
+    ((Gen.agcCtorDefault_target_level : ℝ), (Gen.agcCtorDefault_max_gain : ℝ), Gen.agcCtorDefault_average_len,
+      (Gen.agcCtorDefault_t_rise : ℝ), (Gen.agcCtorDefault_t_fall : ℝ)) = (1, 60, 100, 1 / 100, 1 / 100) := by
+  refine ⟨?_, ?_, ?_, ?_⟩ <;>
+    simp [Gen.compressorCtorDefault_sample_rate, Gen.compressorCtorDefault_threshold, Gen.compressorCtorDefault_ratio,
+      Gen.compressorCtorDefault_knee_width, Gen.compressorCtorDefault_attack_time, Gen.compressorCtorDefault_release_time,
+      Gen.limiterCtorDefault_sample_rate, Gen.limiterCtorDefault_threshold, Gen.limiterCtorDefault_knee_width,
+      Gen.limiterCtorDefault_attack_time, Gen.limiterCtorDefault_release_time,
+      Gen.noiseGateCtorDefault_sample_rate, Gen.noiseGateCtorDefault_threshold, Gen.noiseGateCtorDefault_attack_time,
+      Gen.noiseGateCtorDefault_release_time, Gen.noiseGateCtorDefault_hold_time,
+      Gen.agcCtorDefault_target_level, Gen.agcCtorDefault_max_gain, Gen.agcCtorDefault_average_len, Gen.agcCtorDefault_t_rise,
+      Gen.agcCtorDefault_t_fall]
+
+/-- non-vacuity: the generated constructors accept their default arguments (`Limiter()` has attack time 0: the ceiling theorem applies) -/
+example : ∃ o, Gen.limiterCtor (44100 : Int) (-10 : ℝ) 0 0 (1 / 5) = .ok o := by
+  unfold Gen.limiterCtor; norm_num
+example : ∃ o, Gen.compressorCtor (44100 : Int) (-10 : ℝ) 5 0 (1 / 100) (1 / 5) = .ok o := by
+  unfold Gen.compressorCtor; norm_num
+example : ∃ o, Gen.agcCtor (1 : ℝ) 60 100 (1 / 100) (1 / 100) = .ok o := by
+  unfold Gen.agcCtor; norm_num
+example : ∃ e, Gen.agcCtor (1 : ℝ) 60 0 (1 / 100) (1 / 100) = .error e := by
+  unfold Gen.agcCtor; norm_num
 
 /-! ## Non-vacuity: the admissibility hypotheses of the transported theorems hold at concrete parameter records -/
 
